@@ -1,2 +1,3 @@
-import DuneVerif.Common.Proto
-def main : IO Unit := DV.runDriver fun _ => "bad-op"
+import DuneVerif.Model.C15
+/-! line-protocol driver for C15: `<kind> <params…> : <op>;<op>;…` (see `DV.C15.handle`) -/
+def main : IO Unit := DV.runDriver DV.C15.handle
